@@ -265,6 +265,11 @@ structure Meta where
   hint : Ann
   deriving DecidableEq, Repr, Inhabited
 
+/-- the value of a `wraps=betterproto.TYPE_X` argument; outer `none` = AttributeError -/
+def wrapsBack : Option Name → Option (Option PType)
+  | none => some none
+  | some n => (lookup? n typeConsts).map some
+
 /-- evaluate `betterproto.<ctor>_field(number, …)`; `none` = AttributeError / TypeError at import -/
 def readBack (c : CField) : Option Meta :=
   match lookup? c.ctor fieldCtors with
@@ -283,11 +288,7 @@ def readBack (c : CField) : Option Meta :=
             | some a, some b => some (some (a, b))
             | _, _ => none
           else none
-      let w : Option (Option PType) :=
-        match c.wraps with
-        | none => some none
-        | some n => (lookup? n typeConsts).map some
-      match mt, w with
+      match mt, wrapsBack c.wraps with
       | some mt, some w => some { number := c.number, protoType := pt, mapTypes := mt, group := c.group,
                                   wraps := w, optional := c.optional, hint := c.ann }
       | _, _ => none
@@ -344,12 +345,12 @@ def observe (mt : Meta) : FieldSpec :=
 
 /-- descriptor.proto, `FieldDescriptorProto.Type` → betterproto's type tag (hand-written from
     descriptor.proto; TYPE_GROUP = 10 has no proto3 meaning) -/
-def specType : Nat → Option PType
-  | 1 => some .double | 2 => some .float | 3 => some .int64 | 4 => some .uint64 | 5 => some .int32
-  | 6 => some .fixed64 | 7 => some .fixed32 | 8 => some .bool | 9 => some .string
-  | 11 => some .message | 12 => some .bytes | 13 => some .uint32 | 14 => some .enum
-  | 15 => some .sfixed32 | 16 => some .sfixed64 | 17 => some .sint32 | 18 => some .sint64
-  | _ => none
+def specTypeTable : List (Nat × PType) :=
+  [(1, .double), (2, .float), (3, .int64), (4, .uint64), (5, .int32), (6, .fixed64), (7, .fixed32),
+   (8, .bool), (9, .string), (11, .message), (12, .bytes), (13, .uint32), (14, .enum),
+   (15, .sfixed32), (16, .sfixed64), (17, .sint32), (18, .sint64)]
+
+def specType (t : Nat) : Option PType := lookupN? t specTypeTable
 
 /-- Python type of a scalar proto type (protobuf's Python mapping) -/
 def specPy : PType → Option Name
@@ -398,6 +399,13 @@ def specMapEntry (full : Name) (m : MsgP) (f : FieldP) : Option MsgP :=
     m.nested.find? (fun n => n.mapEntry && decide (f.typeName = full ++ '.' :: n.name))
   else none
 
+/-- the oneof a field belongs to: its `oneof_index`, unless that oneof is the synthetic one of
+    a proto3 `optional` field; outer `none` = dangling index -/
+def specGroup (m : MsgP) (f : FieldP) : Option (Option Name) :=
+  match f.oneofIndex with
+  | some i => if f.proto3Optional then some none else (m.oneofs[i]?).map some
+  | none => some none
+
 def fieldNo (n : Nat) (e : MsgP) : Option FieldP := e.fields.find? (fun f => f.number = n)
 
 /-- what the schema says about field `f` of the message `m` whose full name is `full`
@@ -419,11 +427,7 @@ def specOf (full : Name) (m : MsgP) (f : FieldP) : Option FieldSpec :=
   | none =>
     match specType f.type, specElem f false with
     | some t, some el =>
-      let grp : Option (Option Name) :=
-        match f.oneofIndex with
-        | some i => if f.proto3Optional then some none else (m.oneofs[i]?).map some
-        | none => some none
-      match grp with
+      match specGroup m f with
       | some g =>
         some { number := f.number, ty := t,
                card := if f.label = .repeated then .repeated else if f.proto3Optional then .optional else .singular,
@@ -443,11 +447,16 @@ def validEntry (e : MsgP) : Bool :=
   match e.fields with
   | [k, v] => k.number = 1 && v.number = 2 && validType k.type && validType v.type
               && (specType k.type).any (fun t => (specPy t).isSome)
+              && (specType v.type == some .message
+                  || ((lookup? v.typeName specWrappers).isNone && v.typeName != tsName && v.typeName != durName))
   | _ => false
 
 /-- what protoc guarantees of one field of message `m` (full name `full`) -/
 def validField (full : Name) (m : MsgP) (f : FieldP) : Bool :=
   validType f.type
+  -- the names of the wrappers, Timestamp and Duration denote messages
+  && (specType f.type == some .message
+      || ((lookup? f.typeName specWrappers).isNone && f.typeName != tsName && f.typeName != durName))
   && (match f.oneofIndex with | some i => decide (i < m.oneofs.length) | none => true)
   && (!f.proto3Optional || f.label != .repeated)
   && (match specMapEntry full m f with | some _ => f.label == .repeated | none => true)
